@@ -22,7 +22,7 @@ import tlz as toolz
 
 import dask
 from dask import config
-from dask._task_spec import GraphNode
+from dask._task_spec import Alias, GraphNode
 from dask.base import clone_key, flatten, is_dask_collection
 from dask.core import keys_in_tasks, reverse_dict
 from dask.tokenize import normalize_token, tokenize
@@ -248,6 +248,13 @@ class Layer(Graph):
                 return [clone_value(i) for i in o]
             elif typ is dict:
                 return {k: clone_value(v) for k, v in o.items()}
+            elif isinstance(o, GraphNode):
+                # Task objects: rename the dependencies that are being cloned
+                subs = {k: clone_key(k, seed) for k in o.dependencies if k in keys}
+                if subs:
+                    is_leaf = False
+                    return o.substitute(subs)
+                return o
             else:
                 try:
                     if o not in keys:
@@ -265,6 +272,11 @@ class Layer(Graph):
                 key = clone_key(key, seed)
                 is_leaf = True
                 value = clone_value(value)
+                if isinstance(value, GraphNode) and value.key != key:
+                    if isinstance(value, Alias):
+                        value = Alias(key, value.target)
+                    else:
+                        value = value.substitute({}, key=key)
                 if bind_to is not None and is_leaf:
                     value = (chunks.bind, value, bind_to)
                     bound = True
